@@ -225,6 +225,63 @@ Proof.
       destruct (rej_fn (q0 :: qr) p) eqn:R; [|reflexivity]. rewrite (rej_fn_ext _ _ t N2 G2 NP R) in H. discriminate.
 Qed.
 
+(* ---------- exclude filters with negation: selected entries below selected directories ---------- *)
+Lemma chain_node_eq anc loc name isdir kids :
+  chain_node anc loc (Node name isdir kids) =
+  ((desc loc name, isdir), anc) :: (if isdir then chain_list (anc ++ [desc loc name]) (desc loc name) kids else []).
+Proof.
+  cbn [chain_node]. f_equal. destruct isdir; [|reflexivity].
+  induction kids as [|k r IH]; [reflexivity|]. cbn [chain_list]. rewrite <- IH. reflexivity.
+Qed.
+
+(* shape of selectExcludeFilter: childMayBeSelected = selectedForRestore && isDir *)
+Definition excl_form (sel : selector) : Prop := forall p d, snd (sel p d) = andb (fst (sel p d)) d.
+
+Lemma chain_dead sel : forall n l a q, list_size l <= n -> forallb (fun x => fst (sel x true)) a = false ->
+  filter (chain_ok sel) (chain_list a q l) = [].
+Proof.
+  induction n as [|n IH]; intros l a q L F.
+  - destruct l as [|[nm dd ks] r]; [reflexivity|]. rewrite list_size_cons in L. lia.
+  - destruct l as [|[nm dd ks] r]; [reflexivity|]. rewrite list_size_cons in L.
+    cbn [chain_list]. rewrite chain_node_eq, filter_app. cbn [filter]. unfold chain_ok at 1. cbn [fst snd].
+    rewrite F, andb_false_r. rewrite (IH r a q ltac:(lia) F), app_nil_r.
+    destruct dd; [|reflexivity]. apply IH; [lia|]. rewrite forallb_app, F. reflexivity.
+Qed.
+
+Theorem walk_excl_exact sel : excl_form sel -> forall n kids anc loc, list_size kids <= n ->
+  forallb (fun a => fst (sel a true)) anc = true ->
+  w_written (walk_list sel loc kids) = map fst (filter (chain_ok sel) (chain_list anc loc kids)).
+Proof.
+  intro EF. induction n as [|n IH]; intros kids anc loc L A.
+  - destruct kids as [|[nm dd ks] r]; [reflexivity|]. rewrite list_size_cons in L. lia.
+  - destruct kids as [|[nm dd ks] r]; [reflexivity|]. rewrite list_size_cons in L.
+    cbn [walk_list chain_list w_written]. rewrite walk_node_eq, chain_node_eq. cbv zeta.
+    rewrite filter_app, map_app, (IH r anc loc ltac:(lia) A). f_equal.
+    set (p := desc loc nm). cbn [filter]. unfold chain_ok at 1. cbn [fst snd]. rewrite A, andb_true_r.
+    destruct dd; cbn [w_written].
+    + rewrite (EF p true), andb_true_r. unfold sub_walk. destruct (fst (sel p true)) eqn:S.
+      * cbn [map fst app]. f_equal. apply IH; [lia|]. rewrite forallb_app, A. cbn [forallb]. rewrite S. reflexivity.
+      * cbn [app]. rewrite (chain_dead sel _ ks (anc ++ [p]) p (le_n _)); [reflexivity|].
+        rewrite forallb_app, A. cbn [forallb]. rewrite S. reflexivity.
+    + destruct (fst (sel p false)); reflexivity.
+Qed.
+
+Lemma sel_exclude_form ipats pats : excl_form (sel_exclude ipats pats).
+Proof. intros p d. reflexivity. Qed.
+
+(* restore --exclude (negations allowed) writes exactly the selected entries that lie below selected directories *)
+Theorem exclude_written_exact ipats pats top :
+  w_written (walk_root (sel_exclude ipats pats) top) = spec_written_excl (sel_exclude ipats pats) top.
+Proof.
+  unfold walk_root, spec_written_excl. cbn [w_written].
+  apply (walk_excl_exact _ (sel_exclude_form ipats pats) (list_size top)); [lia | reflexivity].
+Qed.
+
+Theorem final_state_spec_excl ipats pats delete top extras :
+  final_state (sel_exclude ipats pats) delete top extras =
+  spec_final_w (spec_written_excl (sel_exclude ipats pats) top) (sel_exclude ipats pats) delete top extras.
+Proof. unfold final_state, spec_final_w. rewrite exclude_written_exact. reflexivity. Qed.
+
 (* ---------- --delete ---------- *)
 Theorem delete_exact sel leave e : deleted sel leave e = true <->
   exists names, In (fst e, names) leave /\ ~ In (snd e) names /\ fst (sel (desc (fst e) (snd e)) false) = true.
@@ -243,7 +300,7 @@ Qed.
 Theorem final_state_spec sel delete top extras x : sel_sound sel ->
   (In x (final_state sel delete top extras) <-> In x (spec_final sel delete top extras)).
 Proof.
-  intro SS. unfold final_state, spec_final.
+  intro SS. unfold final_state, spec_final, spec_final_w.
   assert (M : forall y, In y (map fst (w_written (walk_root sel top))) <-> In y (map fst (spec_written sel top))).
   { intro y. rewrite !in_map_iff. split; intros [[q d] [E I]]; exists (q, d); (split; [exact E|]); apply (walk_written_exact sel top q d SS); exact I. }
   rewrite !in_app_iff, !in_flat_map. rewrite M.
